@@ -66,7 +66,7 @@ class G:
     def block(self, depth, avail, top=False):
         """list of statements; avail = labels that a goto placed here may target (later in an enclosing block)"""
         r = self.rng
-        n = r.randint(2, 6) if top else r.randint(1, 4)
+        n = r.randint(2, 6) if top else r.choice([0, 1, 2, 2, 3, 3, 4])      # nested blocks may be empty
         kinds = []
         for _ in range(n):
             k = r.random()
@@ -284,9 +284,10 @@ def judge(o, r):
     got = codes & relevant
     may = set(o.may)
     if o.dups:
-        # which declaration a later use names is ambiguous once a name is declared twice: E482 is not compared
-        want.discard('482')
-        may.add('482')
+        # which declaration a later use names is ambiguous once a name is declared twice (and a use that then names a constant
+        # or parameter can draw errors of later stages that replace the statement with its other errors): only the E422 is required
+        may |= want | {'482'}
+        want = want & {'422', '424'}
     if not (want <= got and got <= (want | may)):
         return 'expected the scoping errors %s%s (%s), got %s' % (sorted(want), (' and possibly %s' % sorted(may - want)) if may - want else '', '; '.join(o.why[:3]), sorted(codes))
     return None
@@ -335,9 +336,7 @@ def exhaustive(maxlen):
                     return None
                 b = stack.pop()
                 open_blocks.pop()
-                if not b:
-                    return None
-                stack[-1].append(('block', b))
+                stack[-1].append(('block', b))      # possibly empty
             elif t == 'G':
                 if label_block is not None:
                     return None     # goto after the label: a backward jump
